@@ -11,8 +11,11 @@ package fox
 //@ -- cnt(key, i) = number of '{' in key[:i] (each wildcard, {param} or *{catch-all}, has exactly one)
 //@ -- a fact about the specification function (by induction on j - i; not provable by the solver)
 //@ axiom cnt.mono: forall u string, i int, j int :: {cnt(u, i), cnt(u, j)} 0 <= i && i <= j ==> cnt(u, i) <= cnt(u, j)
+//@ -- the per-method root nodes (key = the HTTP method) are the only nodes that may have neither a child nor a route;
+//@ -- they are never the child or the inode of another node
+//@ fun isRoot(n *node) bool
 //@ pred paramWF(n *node, k int) = (n.params[k].end == -1 ==> k == len(n.params) - 1) && (n.params[k].end != -1 ==> 0 < n.params[k].end && n.params[k].end <= len(n.key) && cnt(n.key, n.params[k].end) == k + 1)
-//@ pred nodeWF(n *node) = len(n.childKeys) == len(n.children) && -1 <= n.paramChildIndex && n.paramChildIndex < len(n.children) && -1 <= n.wildcardChildIndex && n.wildcardChildIndex < len(n.children) && len(n.params) == cnt(n.key, len(n.key)) && len(n.params) <= 65535 && (forall i int :: {n.children[i]} 0 <= i && i < len(n.children) ==> n.children[i] != nil) && (forall k int :: {n.params[k]} 0 <= k && k < len(n.params) ==> paramWF(n, k)) && (len(n.children) == 0 ==> n.route != nil) && (forall p int :: {n.key[p]} 0 <= p && p < len(n.key) && n.key[p] == '*' && n.params[cnt(n.key, p)].end >= 0 ==> n.inode != nil) && (forall p int :: {n.key[p]} 0 <= p && p < len(n.key) && n.key[p] == '*' && n.params[cnt(n.key, p)].end == -1 ==> n.route != nil) && (forall p int :: {n.key[p]} 0 <= p && p < len(n.key) && n.key[p] == '*' ==> p + 1 < len(n.key) && n.key[p+1] == '{')
+//@ pred nodeWF(n *node) = len(n.childKeys) == len(n.children) && -1 <= n.paramChildIndex && n.paramChildIndex < len(n.children) && -1 <= n.wildcardChildIndex && n.wildcardChildIndex < len(n.children) && len(n.params) == cnt(n.key, len(n.key)) && len(n.params) <= 65535 && (forall i int :: {n.children[i]} 0 <= i && i < len(n.children) ==> n.children[i] != nil) && (forall k int :: {n.params[k]} 0 <= k && k < len(n.params) ==> paramWF(n, k)) && (len(n.children) == 0 && !isRoot(n) ==> n.route != nil) && (forall i int :: {n.children[i]} 0 <= i && i < len(n.children) ==> !isRoot(n.children[i])) && (n.inode != nil ==> !isRoot(n.inode)) && (forall p int :: {n.key[p]} 0 <= p && p < len(n.key) && n.key[p] == '*' && n.params[cnt(n.key, p)].end >= 0 ==> n.inode != nil) && (forall p int :: {n.key[p]} 0 <= p && p < len(n.key) && n.key[p] == '*' && n.params[cnt(n.key, p)].end == -1 ==> n.route != nil) && (forall p int :: {n.key[p]} 0 <= p && p < len(n.key) && n.key[p] == '*' ==> p + 1 < len(n.key) && n.key[p+1] == '{')
 //@ pred heapWF() = forall m *node :: {m.key} {m.children} {m.childKeys} {m.params} {m.paramChildIndex} {m.wildcardChildIndex} {m.inode} {m.route} m != nil ==> nodeWF(m)
 
 //@ func (*skippedNodes).pop props C01
